@@ -605,6 +605,7 @@ func (w *World) ReceiveAttack(p *Party, raw [][]byte, name string) M {
 		delete(wm.Abs, "hashraw")
 	}
 	wm.Abs["id"] = wm.ID
+	wm.Abs["atkname"] = name
 	w.Wire = append(w.Wire, wm)
 	return w.receive(p, wm, true, name)
 }
